@@ -658,9 +658,19 @@ func rulesScanAlias(c *Ctx, r *Report, allFormats bool) {
 // ---------------------------------------------------------------------------
 // G5: line terminators
 
-// byteCompareGroups: for byte-typed value v, the constants it is compared with, grouped by the block the equal edge leads to.
+// byteCompareGroups: the constants a byte-typed value is compared with, grouped into `||` chains / case lists:
+// comparisons linked through their not-equal edges whose equal edges continue at the same place (following
+// empty blocks, and taking the phi values they contribute into account).
 func byteCompareGroups(f *ssa.Function) map[ssa.Value]map[*ssa.BasicBlock][]int64 {
-	out := map[ssa.Value]map[*ssa.BasicBlock][]int64{}
+	type cmp struct {
+		blk      *ssa.BasicBlock
+		v        ssa.Value
+		k        int64
+		eq, ne   *ssa.BasicBlock
+		resolved string
+	}
+	var cmps []*cmp
+	byBlk := map[*ssa.BasicBlock]*cmp{}
 	for _, b := range f.Blocks {
 		iff, ok := b.Instrs[len(b.Instrs)-1].(*ssa.If)
 		if !ok {
@@ -683,23 +693,83 @@ func byteCompareGroups(f *ssa.Function) map[ssa.Value]map[*ssa.BasicBlock][]int6
 		if !ok || bt.Kind() != types.Uint8 {
 			continue
 		}
-		target := b.Succs[0]
+		eq, ne := b.Succs[0], b.Succs[1]
 		if bo.Op == token.NEQ {
-			target = b.Succs[1]
+			eq, ne = ne, eq
 		}
-		// an || chain jumps to the same target; a switch case list too
-		if out[v] == nil {
-			out[v] = map[*ssa.BasicBlock][]int64{}
+		c := &cmp{blk: b, v: v, k: kc, eq: eq, ne: ne, resolved: resolveTarget(b, eq)}
+		cmps = append(cmps, c)
+		byBlk[b] = c
+	}
+	// union chains
+	parent := map[*cmp]*cmp{}
+	var find func(x *cmp) *cmp
+	find = func(x *cmp) *cmp {
+		if parent[x] == nil || parent[x] == x {
+			return x
 		}
-		out[v][target] = append(out[v][target], kc)
+		r := find(parent[x])
+		parent[x] = r
+		return r
+	}
+	for _, a := range cmps {
+		if nx := byBlk[a.ne]; nx != nil && nx.v == a.v && len(nx.blk.Preds) == 1 && nx.resolved == a.resolved {
+			ra, rb := find(a), find(nx)
+			if ra != rb {
+				parent[rb] = ra
+			}
+		}
+	}
+	out := map[ssa.Value]map[*ssa.BasicBlock][]int64{}
+	for _, c := range cmps {
+		root := find(c)
+		if out[c.v] == nil {
+			out[c.v] = map[*ssa.BasicBlock][]int64{}
+		}
+		out[c.v][root.blk] = append(out[c.v][root.blk], c.k)
 	}
 	return out
+}
+
+// resolveTarget follows blocks that only jump on and describes where control continues, including the phi
+// values contributed on arrival.
+func resolveTarget(from, target *ssa.BasicBlock) string {
+	prev := from
+	for hops := 0; hops < 8; hops++ {
+		if len(target.Instrs) == 1 {
+			if _, ok := target.Instrs[0].(*ssa.Jump); ok {
+				prev, target = target, target.Succs[0]
+				continue
+			}
+		}
+		break
+	}
+	key := fmt.Sprintf("b%d", target.Index)
+	for _, in := range target.Instrs {
+		phi, ok := in.(*ssa.Phi)
+		if !ok {
+			break
+		}
+		for i, p := range target.Preds {
+			if p == prev {
+				e := phi.Edges[i]
+				if k := constVal(e); k != nil {
+					key += "|" + k.ExactString()
+				} else {
+					key += "|" + e.Name()
+				}
+			}
+		}
+	}
+	return key
 }
 
 type g5spec struct{ rel, fn string }
 
 func rulesLineTerminators(c *Ctx, r *Report, prop string) {
-	rulesG5Bytes(c, r, []g5spec{{"formats/fasta", "role:fasta.read"}, {"formats/newick", "role:newick.nextToken"}}, 5, "terminator comparison groups (4 states in fasta.read, 1 case list in newick.nextToken)")
+	_, n1 := rulesG5Automaton(c, r, c.role("fasta.read"), "formats/fasta record reader")
+	_, n2 := rulesG5Automaton(c, r, c.role("newick.nextToken"), "formats/newick tokenizer")
+	r.floor("G5", n1+n2, 4, "automaton states of the FASTA reader and the Newick tokenizer in which the byte matters")
 	rulesG5Lines(c, r)
 }
 
